@@ -197,9 +197,10 @@ def e2_scenarios(tier):
   two = dict(scripts=(("start",), ("start",)), pool=3)
   alive = dict(scripts=(("start", "is_alive"), ("start",)), pool=3)
   three = dict(scripts=(("start",), ("start",), ("start",)), pool=4)
+  startstop = dict(scripts=(("start", "stop"),), pool=2)        # one caller: start(), then stop() against the two delivery threads it made
   if tier == "quick":
-    return [(two, 30)]
-  return [(two, 30), (alive, 40), (three, 40)]
+    return [(two, 30), (startstop, 26)]
+  return [(two, 30), (startstop, 30), (alive, 40), (three, 40)]
 
 
 def e2_specs(tier):
